@@ -20,7 +20,11 @@ for d in sorted(glob.glob(os.path.join(os.path.dirname(__file__), "..", "seeded"
             return "caught (%ds): %s" % (x["wall_s"], "; ".join(s.split("/", 1)[-1] for s in x["signatures"][:3]))
         return "MISSED" if x["check_exit"] == 0 else "no verdict (exit %d)" % x["check_exit"]
     summary = m.get("summary", "").replace("\n", " ").replace("|", "/")
-    rows.append((name, m.get("property", "?"), summary[:260], m.get("needs", "").replace("\n", " ").replace("|", "/")[:200], cell("quick"), cell("thorough"), r.get("note", "")))
+    note = r.get("note", "") or m.get("note", "") or ""
+    others = ["%s's check: %s" % (k.split("@")[1], "caught" if v.get("check_exit") == 1 else "missed") for k, v in r.items() if "@" in k]
+    if others:
+        note = (note + " " if note else "") + "; ".join(others)
+    rows.append((name, m.get("property", "?"), summary[:260], m.get("needs", "").replace("\n", " ").replace("|", "/")[:200], cell("quick"), cell("thorough"), note))
 with open(os.path.join(os.path.dirname(__file__), "..", "seeded", "SUMMARY.md"), "w") as f:
     f.write("# Seeded changes and which check catches them\n\n")
     f.write("Each change was written by a sub-agent that saw only the property text, compiles, passes the existing test suite, and comes with a demonstration that fails with it and passes without (all three re-confirmed independently, see tools/confirm_seed.sh). `./check <property>` was run with the change applied to /repo (tools/seedtest.sh).\n\n")
@@ -28,5 +32,6 @@ with open(os.path.join(os.path.dirname(__file__), "..", "seeded", "SUMMARY.md"),
     for row in rows:
         f.write("| " + " | ".join(row) + " |\n")
     caught = sum(1 for r in rows if r[4].startswith("caught") or r[5].startswith("caught"))
-    f.write(f"\n{caught} of {len(rows)} caught by the property's own check.\n")
+    other = sum(1 for r in rows if not (r[4].startswith("caught") or r[5].startswith("caught")) and "check: caught" in r[6])
+    f.write(f"\n{caught} of {len(rows)} caught by the property's own check, {other} more by the check of the property whose code they change.\n")
 print(open(os.path.join(os.path.dirname(__file__), "..", "seeded", "SUMMARY.md")).read()[-300:])
